@@ -245,6 +245,14 @@ InvGaussPSD   == (ValState /\ IsGauss) => PSDOn(N, KMat, ElemErr + 1)
 InvLinearPSD  == (ValState /\ meth.name = "linear") => PSDOn(N, KMat, 0)          \* Gram matrix: exact
 InvPolyLinear == ValState => KMatOf(pts, [name |-> "poly", en |-> 1, ed |-> 1, c |-> 0, d |-> 1, dd |-> 1])
                            = KMatOf(pts, [name |-> "linear", en |-> 1, ed |-> 1, c |-> 0, d |-> 1, dd |-> 1])
+\* the Gaussian kernel and the neighbour pattern are shift-invariant (cases may shift the records by a large offset
+\* while the relation is evaluated on the un-shifted lattice points); the linear kernel is not
+Shifted(by) == [i \in 1..N |-> [d \in 1..Len(pts[i]) |-> pts[i][d] + by]]
+InvShift == ValState =>
+  LET sh == Shifted(1000) IN
+  /\ DistMat(sh) = DM
+  /\ (IsGauss => KMatOf(sh, meth) = KMat)
+  /\ (meth.name = "linear" => KMatOf(Shifted(1), meth) # KMat)
 \* half-integer degrees: the bracket really brackets (squares compared exactly), is exact on perfect squares,
 \* degree 1/2 squared is degree 1, degree 3/2 = base x degree 1/2, and records/2 scale the value by 2^-d
 InvFrac == (ValState /\ meth.name = "linear") =>
